@@ -173,6 +173,15 @@ Theorem C16_dqm_generated_slack_values :
 Proof. exact dqm_slack_values_g_eq. Qed.
 Print Assumptions C16_dqm_generated_slack_values.
 
+(* list(range(start, stop, step))[1:] as a general range (Model/DqmIneqGen.zrange_tail): with a span of at most ten
+   steps - the log10 digit ranges - it has the at most nine elements the DQM log10 theorems enumerate *)
+Theorem C16_range_tail_at_most_nine :
+  forall start stop step : Z, (0 < step)%Z -> (stop - start <= 10 * step)%Z ->
+    zrange_tail start stop step
+    = filter (fun v => (v <? stop)%Z) (map (fun k => (start + Z.of_nat k * step)%Z) (seq 1 9)).
+Proof. exact zrange_tail_nine. Qed.
+Print Assumptions C16_range_tail_at_most_nine.
+
 (* int(np.ceil(np.log10(n))) as modelled: the least d with n <= 10^d *)
 Theorem C16_ceil_log10_spec :
   forall n : Z, (2 <= n)%Z ->
